@@ -103,7 +103,7 @@ def ref_section(R, addr):
 class Synth:
     """a random structurally valid ELF image"""
 
-    def __init__(self, rng, cls=None, order=None, nseg=None, page=0x1000, exotic=False, machine=None, share=False, code=None, lead=0):
+    def __init__(self, rng, cls=None, order=None, nseg=None, page=0x1000, exotic=False, machine=None, share=False, code=None, lead=0, incongruent=False):
         self.rng = rng
         self.cls = cls or rng.choice([32, 64])
         self.order = order or rng.choice(["<", ">"])
@@ -127,6 +127,7 @@ class Synth:
         self.segs = segs
         self.share = share
         self.lead = lead
+        self.incongruent = incongruent
         self.code = code
         self.exotic = exotic
         self.machine = machine
@@ -184,6 +185,9 @@ class Synth:
         for i, s in enumerate(self.segs):
             o = offs["seg%d" % i]
             v = va + (o % page)
+            if self.incongruent:
+                # file offset and address not congruent modulo the page size (p_align smaller than the configured page)
+                v = va + rng.randrange(0, page)
             if self.share and i > 0:
                 # same offset-address delta as the previous segment: neighbours may share a page
                 v = self.segs[i - 1]["vaddr"] + (o - self.segs[i - 1]["offset"])
